@@ -12,10 +12,11 @@ LEVEL = "exploration"
 
 def conforming_link(rng, n, link_id, version):
     out = []
-    orbit = rng.randrange(1 << 31)
+    # extremes: links that start just below the 32-bit orbit roll-over (they pass through orbit 0) or at orbit 0
+    orbit = rng.choice([rng.randrange(1 << 31)] * 6 + [0xFFFFFFFF - rng.randrange(3), 0xFFFFFFFF])
     fee = R.fee_id(rng.randrange(7), rng.randrange(12), rng.randrange(3))
     while len(out) < n:
-        orbit = (orbit + rng.choice([1, 1, 2, 3])) & 0xFFFFFFFF
+        orbit = 0 if orbit == 0xFFFFFFFF else (orbit + rng.choice([1, 1, 2, 3])) & 0xFFFFFFFF
         npages = (rng.randint(1, 4) if not out else rng.randint(0, 4)) + 1
         trg = (0x3 | rng.getrandbits(13) << 1 | rng.getrandbits(5) << 27) & ~0x07FF8000 | 1
         det = rng.getrandbits(12) | rng.getrandbits(8) << 24
